@@ -11,7 +11,7 @@ checks, an open breaker was opened by ≥ threshold real failures at the recorde
 operation; induction over the history.  The literal schedule and the 60 s cap of the specification are
 tied to the compiled code by the `gen_*` side conditions (decided on the regenerated tables).
 
-`next_delay_le_cap` of the design is `failure_delay_capped(_partial)`; `reset_on_success` is the success
+`next_delay_le_cap` of the design is `failure_delay_capped` + `first_failure_delay_capped(_partial)`; `reset_on_success` is the success
 half of `backoff_schedule` (and of `recovers_on_first_success`).
 -/
 import Olla.Model.Health
@@ -277,9 +277,61 @@ private theorem clause_schedule (v vb : Variant) (c : Cfg) (hcap : c.cap = capLi
            · right; first | (have := hp hle; omega) | (have := hf hle; omega)
            · left; omega))
 
-private theorem clause_capped (v vb : Variant) (c : Cfg) (hcap : c.cap = capLit) (hok : vb = .fixed ∨ c.interval ≤ c.cap) (ideal : Bool)
+private theorem clause_capped (v vb : Variant) (c : Cfg) (hcap : c.cap = capLit) (ideal : Bool)
     (g : Ghost) (s : St) (op : Op) (h : CInv c g s) :
     clauseOk (paramsOf c ideal) .capped g op (obsOf (step v vb c s op)) = true := by
+  obtain ⟨h1, h2, h3, h4, h5, h6, h7, h8⟩ := h
+  obtain ⟨⟨st, f, m, lc, nc⟩, ⟨cf, clf, cla, cio, now⟩, cbs, lr⟩ := s
+  simp only at h1 h2 h3 h4 h5 h6 h7 h8
+  subst h5 h4
+  by_cases hf1 : 1 ≤ f
+  case neg =>
+    have hf0 : f = 0 := by omega
+    subst hf0
+    cases op <;> simp [clauseOk, h3]
+  have hf := (calc_fail vb c hcap f).2 (.inr (.inr hf1))
+  have hp := (proxy_delay c hcap f).2
+  cases op with
+  | tick d => simp [clauseOk, obsOf, step]
+  | proxyFail =>
+    simp [clauseOk, obsOf, step, doProxyFail, St.delay, paramsOf, h3]
+    (first
+        | omega
+        | (have ⟨hq1, hq2⟩ := hf; constructor
+           · omega
+           · intro hgt; have := hq2 hgt; omega)
+        | (have ⟨hq1, hq2⟩ := hp; constructor
+           · omega
+           · intro hgt; have := hq2 hgt; omega))
+  | check o =>
+    rcases classify_cases o with hc | hc | hc | hc <;> cases cio <;> (try by_cases hto : clf + c.breaker.timeout < now) <;>
+      simp [clauseOk, obsOf, step, doCheck, paramsOf, HealthCB.isOpenCall, statusOfErr, St.delay, hc, h3, hto, calc_succ] <;>
+      (first
+        | omega
+        | (have ⟨hq1, hq2⟩ := hf; constructor
+           · omega
+           · intro hgt; have := hq2 hgt; omega)
+        | (have ⟨hq1, hq2⟩ := hp; constructor
+           · omega
+           · intro hgt; have := hq2 hgt; omega))
+  | sched o =>
+    by_cases hdue : now < nc
+    · simp [clauseOk, obsOf, step, hdue]
+    · simp only [step, if_neg hdue]
+      rcases classify_cases o with hc | hc | hc | hc <;> cases cio <;> (try by_cases hto : clf + c.breaker.timeout < now) <;>
+        simp [clauseOk, obsOf, doCheck, paramsOf, HealthCB.isOpenCall, statusOfErr, St.delay, hc, h3, hto, calc_succ] <;>
+        (first
+        | omega
+        | (have ⟨hq1, hq2⟩ := hf; constructor
+           · omega
+           · intro hgt; have := hq2 hgt; omega)
+        | (have ⟨hq1, hq2⟩ := hp; constructor
+           · omega
+           · intro hgt; have := hq2 hgt; omega))
+
+private theorem clause_cappedFirst (v vb : Variant) (c : Cfg) (hcap : c.cap = capLit) (hok : vb = .fixed ∨ c.interval ≤ c.cap) (ideal : Bool)
+    (g : Ghost) (s : St) (op : Op) (h : CInv c g s) :
+    clauseOk (paramsOf c ideal) .cappedFirst g op (obsOf (step v vb c s op)) = true := by
   obtain ⟨h1, h2, h3, h4, h5, h6, h7, h8⟩ := h
   obtain ⟨⟨st, f, m, lc, nc⟩, ⟨cf, clf, cla, cio, now⟩, cbs, lr⟩ := s
   simp only at h1 h2 h3 h4 h5 h6 h7 h8
@@ -447,20 +499,21 @@ private theorem cinv_init (c : Cfg) (t0 : Int) : CInv c (Ghost.init t0) (St.init
     whose delay cap is 60 s. -/
 theorem all_clauses (v vb : Variant) (c : Cfg) (hM : c.maxMult = 12) (hcap : c.cap = capLit) (ideal : Bool) (k : Clause)
     (hk : k = .healthyIff ∨ k = .classification ∨ k = .schedule ∨ k = .realProbe ∨ k = .callback ∨ k = .proxyFail ∨
-          (k = .capped ∧ (vb = .fixed ∨ c.interval ≤ c.cap)) ∨ (k = .gapBound ∧ ideal = false))
+          k = .capped ∨ (k = .cappedFirst ∧ (vb = .fixed ∨ c.interval ≤ c.cap)) ∨ (k = .gapBound ∧ ideal = false))
     (t0 : Int) (ops : List Op) :
     holds (paramsOf c ideal) k t0 (trace v vb c (St.init t0) ops) = true := by
   apply holdsFrom_of_inv v vb c (paramsOf c ideal) k (CInv c) _ ops _ _ (cinv_init c t0)
   intro g s op h
   refine ⟨?_, cinv_step v vb c hM g s op h⟩
-  rcases hk with rfl | rfl | rfl | rfl | rfl | rfl | ⟨rfl, hok⟩ | ⟨rfl, rfl⟩
+  rcases hk with rfl | rfl | rfl | rfl | rfl | rfl | rfl | ⟨rfl, hok⟩ | ⟨rfl, rfl⟩
   · exact clause_healthyIff v vb c ideal g s op h
   · exact clause_classification v vb c ideal g s op h
   · exact clause_schedule v vb c hcap ideal g s op h
   · exact clause_realProbe v vb c ideal g s op h
   · exact clause_callback v vb c ideal g s op h
   · exact clause_proxyFail v vb c ideal g s op
-  · exact clause_capped v vb c hcap hok ideal g s op h
+  · exact clause_capped v vb c hcap ideal g s op h
+  · exact clause_cappedFirst v vb c hcap hok ideal g s op h
   · simp [clauseOk, paramsOf]
 
 /-- **Healthy ⇔ the latest check reached the endpoint and got a (fast) 2xx answer.** -/
@@ -480,21 +533,27 @@ theorem backoff_schedule (v vb : Variant) (c : Cfg) (hM : c.maxMult = 12) (hcap 
     holds (paramsOf c ideal) .schedule t0 (trace v vb c (St.init t0) ops) = true :=
   all_clauses v vb c hM hcap ideal _ (.inr (.inr (.inl rfl))) t0 ops
 
-/-- **… capped at 60 s** — full strength for the repaired `calculateBackoff` (fixes/C07-first-failure-cap.patch). -/
-theorem failure_delay_capped (v : Variant) (c : Cfg) (hM : c.maxMult = 12) (hcap : c.cap = capLit) (ideal : Bool) (t0 : Int) (ops : List Op) :
-    holds (paramsOf c ideal) .capped t0 (trace v .fixed c (St.init t0) ops) = true :=
-  all_clauses v .fixed c hM hcap ideal _ (.inr (.inr (.inr (.inr (.inr (.inr (.inl ⟨rfl, .inl rfl⟩))))))) t0 ops
-
-/-- Pinned tree: the cap holds for every endpoint whose `check_interval` does not itself exceed 60 s. -/
-theorem failure_delay_capped_partial (v vb : Variant) (c : Cfg) (hM : c.maxMult = 12) (hcap : c.cap = capLit)
-    (hiv : c.interval ≤ c.cap) (ideal : Bool) (t0 : Int) (ops : List Op) :
+/-- **… capped at 60 s**, from the second consecutive failure on: holds for the pinned tree and every interval. -/
+theorem failure_delay_capped (v vb : Variant) (c : Cfg) (hM : c.maxMult = 12) (hcap : c.cap = capLit) (ideal : Bool) (t0 : Int) (ops : List Op) :
     holds (paramsOf c ideal) .capped t0 (trace v vb c (St.init t0) ops) = true :=
-  all_clauses v vb c hM hcap ideal _ (.inr (.inr (.inr (.inr (.inr (.inr (.inl ⟨rfl, .inr hiv⟩))))))) t0 ops
+  all_clauses v vb c hM hcap ideal _ (.inr (.inr (.inr (.inr (.inr (.inr (.inl rfl))))))) t0 ops
+
+/-- **… capped at 60 s after the FIRST failure too** — full strength for the repaired `calculateBackoff`
+    (fixes/C07-first-failure-cap.patch). -/
+theorem first_failure_delay_capped (v : Variant) (c : Cfg) (hM : c.maxMult = 12) (hcap : c.cap = capLit) (ideal : Bool) (t0 : Int) (ops : List Op) :
+    holds (paramsOf c ideal) .cappedFirst t0 (trace v .fixed c (St.init t0) ops) = true :=
+  all_clauses v .fixed c hM hcap ideal _ (.inr (.inr (.inr (.inr (.inr (.inr (.inr (.inl ⟨rfl, .inl rfl⟩)))))))) t0 ops
+
+/-- Pinned tree: the first-failure cap holds for every endpoint whose `check_interval` does not itself exceed 60 s. -/
+theorem first_failure_delay_capped_partial (v vb : Variant) (c : Cfg) (hM : c.maxMult = 12) (hcap : c.cap = capLit)
+    (hiv : c.interval ≤ c.cap) (ideal : Bool) (t0 : Int) (ops : List Op) :
+    holds (paramsOf c ideal) .cappedFirst t0 (trace v vb c (St.init t0) ops) = true :=
+  all_clauses v vb c hM hcap ideal _ (.inr (.inr (.inr (.inr (.inr (.inr (.inr (.inl ⟨rfl, .inr hiv⟩)))))))) t0 ops
 
 /-- **Pinned tree: with `check_interval` = 120 s (accepted by validation) the first failed check schedules the
     next one 120 s later — not capped at 60 s.** -/
-theorem failure_delay_capped_witness :
-    ¬ holds (paramsOf (genCfg 120000000000) false) .capped 0
+theorem first_failure_delay_capped_witness :
+    ¬ holds (paramsOf (genCfg 120000000000) false) .cappedFirst 0
         (trace .pinned .pinned (genCfg 120000000000) (St.init 0) [.check .netErr]) = true := by
   decide
 
@@ -605,17 +664,17 @@ theorem probe_gap_bound (v vb : Variant) (c : Cfg) (hM : c.maxMult = 12) (hcap :
 
 /-- Every clause the pinned tree satisfies, for EVERY `check_interval`, at the regenerated constants. -/
 theorem gen_all_clauses (interval : Int) (ideal : Bool) (k : Clause)
-    (hk : k = .healthyIff ∨ k = .classification ∨ k = .schedule ∨ k = .realProbe ∨ k = .callback ∨ k = .proxyFail)
+    (hk : k = .healthyIff ∨ k = .classification ∨ k = .schedule ∨ k = .realProbe ∨ k = .callback ∨ k = .proxyFail ∨ k = .capped)
     (t0 : Int) (ops : List Op) :
     holds (paramsOf (genCfg interval) ideal) k t0 (trace activeHealth activeBackoff (genCfg interval) (St.init t0) ops) = true := by
   have ⟨hM, hcap, _⟩ := genCfg_facts interval
   apply all_clauses _ _ _ hM hcap ideal k _ t0 ops
-  rcases hk with h | h | h | h | h | h <;> simp [h]
+  rcases hk with h | h | h | h | h | h | h <;> simp [h]
 
-theorem gen_failure_delay_capped_partial (interval : Int) (hiv : interval ≤ capLit) (ideal : Bool) (t0 : Int) (ops : List Op) :
-    holds (paramsOf (genCfg interval) ideal) .capped t0 (trace activeHealth activeBackoff (genCfg interval) (St.init t0) ops) = true := by
+theorem gen_first_failure_delay_capped_partial (interval : Int) (hiv : interval ≤ capLit) (ideal : Bool) (t0 : Int) (ops : List Op) :
+    holds (paramsOf (genCfg interval) ideal) .cappedFirst t0 (trace activeHealth activeBackoff (genCfg interval) (St.init t0) ops) = true := by
   have ⟨hM, hcap, hi⟩ := genCfg_facts interval
-  exact failure_delay_capped_partial _ _ _ hM hcap (by rw [hcap, hi]; exact hiv) ideal t0 ops
+  exact first_failure_delay_capped_partial _ _ _ hM hcap (by rw [hcap, hi]; exact hiv) ideal t0 ops
 
 theorem gen_probe_gap_bound (interval : Int) (h0 : 0 ≤ interval) (hiv : interval ≤ capLit) (t0 : Int) (outcomes : List Outcome) :
     holds (paramsOf (genCfg interval) true) .gapBound t0
@@ -623,19 +682,20 @@ theorem gen_probe_gap_bound (interval : Int) (h0 : 0 ≤ interval) (hiv : interv
   have ⟨hM, hcap, hi⟩ := genCfg_facts interval
   exact probe_gap_bound _ _ _ hM hcap (by rw [hi]; exact h0) (by rw [hcap, hi]; exact hiv) (show (0:Int) ≤ genHCfg.timeout by decide) t0 outcomes
 
-/-! # Non-vacuity -/
+/-! # Non-vacuity (breaker values taken from the regenerated configuration) -/
 
 example : ((run .pinned .pinned (genCfg 5000000000) (St.init 0)
-    [.check .netErr, .tick 5000000000, .check .netErr, .tick 10000000000, .check .netErr, .tick 20000000000, .check (.http 200 false)]).ep.status) = .offline := by decide
+    [.check .netErr, .tick 5000000000, .check .netErr, .tick 10000000000, .check (.http 503 false)]).ep.status) = .unhealthy := by decide
 example : ((run .pinned .pinned (genCfg 5000000000) (St.init 0)
-    [.check .netErr, .check .netErr, .check .netErr, .tick 31000000000, .check (.http 200 false)]).callbacks) = 1 := by decide
-example : ((run .pinned .pinned (genCfg 5000000000) (St.init 0)
-    [.check .netErr, .check .netErr, .check .netErr, .check .netErr, .check .netErr]).delay) = 60000000000 := by decide
+    ((List.replicate genHCfg.threshold (.check .netErr)) ++ [.tick (genHCfg.timeout.toNat + 1000000000), .check (.http 200 false)])).callbacks) = 1 := by decide
+example : ((step .pinned .pinned (genCfg 5000000000) (run .pinned .pinned (genCfg 5000000000) (St.init 0)
+    (List.replicate genHCfg.threshold (.check .netErr))) (.check (.http 200 false))).2.reached) = false := by decide
 
-/-- The delay scheduled after a failed check never exceeds the cap (pinned tree: for `check_interval ≤ 60 s`). -/
+/-- `next_delay_le_cap` of the design: both halves together, for the pinned tree with `check_interval ≤ 60 s`. -/
 theorem next_delay_le_cap_partial (v vb : Variant) (c : Cfg) (hM : c.maxMult = 12) (hcap : c.cap = capLit)
     (hiv : c.interval ≤ c.cap) (ideal : Bool) (t0 : Int) (ops : List Op) :
-    holds (paramsOf c ideal) .capped t0 (trace v vb c (St.init t0) ops) = true :=
-  failure_delay_capped_partial v vb c hM hcap hiv ideal t0 ops
+    holds (paramsOf c ideal) .capped t0 (trace v vb c (St.init t0) ops) = true ∧
+    holds (paramsOf c ideal) .cappedFirst t0 (trace v vb c (St.init t0) ops) = true :=
+  ⟨failure_delay_capped v vb c hM hcap ideal t0 ops, first_failure_delay_capped_partial v vb c hM hcap hiv ideal t0 ops⟩
 
 end Olla.Props.C07
